@@ -427,6 +427,9 @@ pub fn run(cfg: &Config, families: &[Box<dyn Family>]) -> Outcome {
 
 fn run_one(fam: &dyn Family, idx: u64, cfg: &Config, local: &mut Local) {
     local.idx = idx;
+    // hooks are thread-local; make sure no case inherits a clock or switch
+    similar::verif_hooks::set_clock(similar::verif_hooks::Clock::Off);
+    similar::verif_hooks::set_swap_repair(false);
     // A panic that escapes a family is a panic of code under test that the
     // family did not attribute to a specific call (families wrap the calls
     // they make in `guard`); it is reported, never swallowed.
